@@ -3,17 +3,20 @@ package main
 // C04: real-time correspondence for the Waiter and the fire/discard decision of the instance loop.
 //
 //	mode=waiter toks=<ms,...> sleeps=<ms,...> [cancel=<ms>] [unit=us] [slownext=<us>]
+//	    (tokens may lie minutes, days or centuries in the past - up to 250 years: instants more than 292 years apart are outside
+//	    the claim, Time.Sub saturates there - and more than a second in the future; a case may have hundreds of tokens)
 //	    the real coreutil.Waiter over a scripted schedule whose i-th token is T0+toks[i] ms (T0 = time.Now() at the
 //	    start of the case; tokens seconds in the past / fractions of a second in the future), sleeping sleeps[i] ms
 //	    before the i-th Wait (unit=us: both in microseconds). slownext: the schedule needs that long to hand a token out
 //	    (a contended shared schedule); the pick-up instant is taken when it returns.
-//	mode=engine inst=<n> prof=<once:N|const:OPS:MS>[+...] resp=<ms,...> discard=<0|1> [perinst=1] [startup=<profile>]
+//	mode=engine inst=<n> prof=<once:N|const:OPS:MS|line:..|step:..|pause:MS>[+...] resp=<ms,...> discard=<0|1> [perinst=1] [startup=<profile>]
+//	    (OPS may be a fraction: tokens more than 2 s apart; pause:MS = const 0 rps for MS ms: a gap in the profile)
 //	    the real engine (engine.New(...).Run) with n instances (startup once(n), or the given startup schedule: instances are
 //	    started over time, so an instance can find its FIRST token already late), the real schedule constructors,
 //	    provider.NewNum, a gun that records the instant of Shoot entry and then sleeps resp[k mod len] ms (k = number of
 //	    the shot of that instance), an aggregator that records every Report.
 //
-//	mode=proc given=<none|true|false> lat=<ms> times=<N> [pools=<k>] [fmt=yaml|json|toml|stdin] [key=upper] [anchor=1] [rps=mix]
+//	mode=proc given=<none|true|false>[,<…per pool>] lat=<ms> times=<N> [pools=<k>] [fmt=yaml|json|toml|stdin] [key=upper] [anchor=1] [rps=mix]
 //	    the real pandora BINARY (go build of <repo>/main.go) with a yaml config whose pool section does not mention
 //	    discard_overflow / says true / says false, profile once(N), one instance, http gun against an in-process target that
 //	    answers after lat ms, phout result file: ties cli.readConfig's default, the config decoding, the wiring into the
@@ -241,6 +244,9 @@ func buildProfile(p string) core.Schedule {
 			ops, _ := strconv.ParseFloat(f[1], 64)
 			ms, _ := strconv.ParseInt(f[2], 10, 64)
 			parts = append(parts, schedule.NewConst(ops, time.Duration(ms)*time.Millisecond))
+		case f[0] == "pause" && len(f) == 2:
+			ms, _ := strconv.ParseInt(f[1], 10, 64)
+			parts = append(parts, schedule.NewConst(0, time.Duration(ms)*time.Millisecond))
 		case f[0] == "line" && len(f) == 4:
 			from, _ := strconv.ParseFloat(f[1], 64)
 			to, _ := strconv.ParseFloat(f[2], 64)
@@ -262,6 +268,22 @@ func buildProfile(p string) core.Schedule {
 	return schedule.NewComposite(parts...)
 }
 
+// addUnits is t0 + n*unit, also when n*unit does not fit a time.Duration (more than 292 years)
+func addUnits(t0 time.Time, n int64, unit time.Duration) time.Time {
+	const chunk = int64(1) << 32 // 2^32 ms = 49.7 days, 2^32 us = 71.6 min: far below the range of a Duration
+	for n != 0 {
+		step := n
+		if step > chunk {
+			step = chunk
+		} else if step < -chunk {
+			step = -chunk
+		}
+		t0 = t0.Add(time.Duration(step) * unit)
+		n -= step
+	}
+	return t0
+}
+
 func runWaiter(m map[string]string) string {
 	toks := parseMs(m["toks"])
 	sleeps := parseMs(m["sleeps"])
@@ -272,7 +294,7 @@ func runWaiter(m map[string]string) string {
 	rec := newRecorder()
 	ss := &scriptSched{}
 	for _, t := range toks {
-		ss.toks = append(ss.toks, rec.clk.T0.Add(time.Duration(t)*unit))
+		ss.toks = append(ss.toks, addUnits(rec.clk.T0, t, unit))
 	}
 	ctx, cancel := context.WithCancel(context.Background())
 	defer cancel()
@@ -506,12 +528,125 @@ func genWaiterCancel(r *rand.Rand) string {
 	return fmt.Sprintf("mode=waiter toks=%s sleeps=%s cancel=%d", joinInts(toks), joinInts(sleeps), 50+r.Intn(int(clock)+200))
 }
 
+// latenesses (ms) at which a lateness kept in a narrower integer wraps around or changes sign: 2^15, 2^16, 2^31, 2^32 of
+// microseconds, milliseconds and seconds
+var farEdges = func() []int64 {
+	var out []int64
+	for _, bits := range []uint{15, 16, 31, 32} {
+		out = append(out, (int64(1)<<bits)/1000, int64(1)<<bits, (int64(1)<<bits)*1000)
+	}
+	return out
+}()
+
+// 250 years in ms
+const farMax = int64(250) * 365 * 24 * 3600 * 1000
+
+// genWaiterFar: tokens that are minutes, days, years or centuries late (no real waiting: the schedule is scripted), among them the
+// edges above plus 1 ms .. 30 s, mixed with ordinary tokens. The lateness stays below 250 years: the claim is about instants
+// within 292 years of each other (beyond that Time.Sub saturates and `0 - waitFor` of the refresh path of Wait overflows).
+func genWaiterFar(r *rand.Rand) string {
+	n := 3 + r.Intn(6)
+	var toks, sleeps []int64
+	var clock int64
+	for i := 0; i < n; i++ {
+		var sl int64
+		if r.Intn(4) == 0 {
+			sl = int64(50 + r.Intn(300))
+		}
+		clock += sl
+		var late int64
+		switch r.Intn(8) {
+		case 0:
+			late = -int64(30 + r.Intn(150)) // a short timer sleep in between
+		case 1:
+			late = int64(r.Intn(1700))
+		case 2, 3:
+			late = farEdges[r.Intn(len(farEdges))] + []int64{1, 400, 1500, 2500, 30000}[r.Intn(5)]
+		case 4:
+			late = farEdges[r.Intn(len(farEdges))] - []int64{1, 300}[r.Intn(2)]
+		default:
+			// log-uniform between 10 s and 250 years
+			late = 10_000
+			for k := r.Intn(31); k > 0; k-- {
+				late *= 2
+			}
+			late += r.Int63n(late/2 + 1)
+		}
+		if late > farMax {
+			late = farMax - r.Int63n(1_000_000)
+		}
+		if late > 1700 && late < 2300 {
+			late = 2300 // stay clear of the threshold
+		}
+		toks = append(toks, clock-late)
+		sleeps = append(sleeps, sl)
+		if late < 0 {
+			clock += -late
+		}
+	}
+	return fmt.Sprintf("mode=waiter toks=%s sleeps=%s", joinInts(toks), joinInts(sleeps))
+}
+
+// genWaiterLong: one or two tokens that lie 1.05 .. 2.8 s in the FUTURE when they are picked up (a timer sleep of more than a
+// second), among late and due ones
+func genWaiterLong(r *rand.Rand) string {
+	n := 3 + r.Intn(3)
+	long := map[int]bool{1 + r.Intn(n-1): true}
+	if r.Intn(3) == 0 {
+		long[r.Intn(n)] = true
+	}
+	var toks, sleeps []int64
+	var clock int64
+	for i := 0; i < n; i++ {
+		var late int64
+		switch {
+		case long[i]:
+			late = -int64(1050 + r.Intn(1750))
+		case r.Intn(3) == 0:
+			late = int64(2300 + r.Intn(3000))
+		default:
+			late = int64(r.Intn(1700))
+		}
+		toks = append(toks, clock-late)
+		sleeps = append(sleeps, 0)
+		if late < 0 {
+			clock += -late
+		}
+	}
+	return fmt.Sprintf("mode=waiter toks=%s sleeps=%s", joinInts(toks), joinInts(sleeps))
+}
+
+// genWaiterBulk: hundreds of tokens in one go (a counter in the Waiter wraps around, a periodic refresh is skipped many times),
+// each clearly inside or clearly outside the window, with a few real sleeps in between so that the clock moves
+func genWaiterBulk(r *rand.Rand, n int) string {
+	var toks, sleeps []int64
+	var clock int64
+	for i := 0; i < n; i++ {
+		var sl int64
+		if i > 0 && r.Intn(n/3+1) == 0 {
+			sl = int64(300 + r.Intn(700))
+		}
+		clock += sl
+		late := int64(r.Intn(1600))
+		if r.Intn(3) == 0 {
+			late = int64(2400 + r.Intn(2000))
+		}
+		toks = append(toks, clock-late)
+		sleeps = append(sleeps, sl)
+	}
+	return fmt.Sprintf("mode=waiter toks=%s sleeps=%s", joinInts(toks), joinInts(sleeps))
+}
+
 var respPool = []int64{0, 0, 50, 300, 700, 1000, 1500, 2100, 3000, 4000}
 
 func genSeg(r *rand.Rand, small, big bool) string {
 	if big && !small && r.Intn(5) == 0 {
 		// a dense profile: dozens of tokens per second
 		return fmt.Sprintf("const:%d:%d", 25+r.Intn(40), 1000+500*r.Intn(4))
+	}
+	if !small && r.Intn(8) == 0 {
+		// a sparse profile (tokens 2 .. 2.5 s apart) or a burst, a gap, and tokens after the gap
+		return []string{"const:0.4:5000", "const:0.5:4000", fmt.Sprintf("const:%d:500+pause:%d+const:2:1000", 6+r.Intn(6), 2200+100*r.Intn(8))}[r.Intn(3)]
 	}
 	switch k := r.Intn(6); {
 	case k == 0:
@@ -584,7 +719,10 @@ func gen(r *rand.Rand, tier string) []string {
 		// an upper-case key (config keys are case-insensitive), a pool section taken over through a yaml merge key
 		"mode=proc given=false lat=800 times=5 key=upper fmt=toml",
 		"mode=proc given=none lat=800 times=5 pools=2 anchor=1",
-		"mode=proc given=true lat=800 times=5 fmt=json key=upper")
+		"mode=proc given=true lat=800 times=5 fmt=json key=upper",
+		// pools of one config with DIFFERENT settings: each pool runs with its own
+		"mode=proc given=false,none lat=800 times=5 pools=2",
+		"mode=proc given=none,false,true lat=800 times=5 pools=3 fmt=json")
 	// (json file / yaml on stdin with the option left out, the mixed profile, late starters: corpus/C04.txt)
 	// scripted engine scenarios: single and several instances, const/once profiles, response-time histories 0 / 0.3 s /
 	// 1 s / 3 s and mixtures
@@ -607,8 +745,14 @@ func gen(r *rand.Rand, tier string) []string {
 	}
 	out = append(out, quick...)
 	ne, nw, nn, nc := 10, 40, 16, 3
+	nfar, nlong, nbulk := 12, 3, 1
 	if thorough {
 		ne, nw, nn, nc = 800, 1800, 1200, 120
+		nfar, nlong, nbulk = 400, 60, 12
+		for _, g := range []string{"true,none", "none,false", "false,true,none", "false,false,none"} {
+			out = append(out, fmt.Sprintf("mode=proc given=%s lat=800 times=5 pools=%d", g, strings.Count(g, ",")+1),
+				fmt.Sprintf("mode=proc given=%s lat=900 times=4 pools=%d fmt=toml", g, strings.Count(g, ",")+1))
+		}
 		for _, g := range []string{"none", "true", "false"} {
 			for _, lat := range []int{700, 1100} {
 				for _, times := range []int{4, 7} {
@@ -657,6 +801,15 @@ func gen(r *rand.Rand, tier string) []string {
 	for i := 0; i < nc; i++ {
 		out = append(out, genWaiterCancel(r))
 	}
+	for i := 0; i < nfar; i++ {
+		out = append(out, genWaiterFar(r))
+	}
+	for i := 0; i < nlong; i++ {
+		out = append(out, genWaiterLong(r))
+	}
+	for i := 0; i < nbulk; i++ {
+		out = append(out, genWaiterBulk(r, 260+r.Intn(500)))
+	}
 	// exactly on / one ms around the threshold at the first call (pick-up a few µs after T0)
 	out = append(out, "mode=waiter toks=-2000,-1999,-2001,-1998 sleeps=0,0,0,0")
 	// a schedule that needs 8 ms to hand a token out: tokens 1.995 s / 1.99 s late when Next is entered are more than 2 s late
@@ -675,6 +828,9 @@ func class(in, obs string) string {
 			return ""
 		}
 		c := "proc/given=" + m["given"]
+		if strings.Contains(m["given"], ",") {
+			c = "proc/given=mixed"
+		}
 		if m["pools"] != "" {
 			c += "/pools=" + m["pools"]
 		}
@@ -709,6 +865,18 @@ func class(in, obs string) string {
 		if m["unit"] == "us" {
 			c += "/near-us"
 		}
+		if n := strings.Count(m["toks"], ","); n > 100 {
+			c += "/bulk"
+		}
+		for _, t := range parseMs(m["toks"]) {
+			if t < -60_000 {
+				c += "/far-past"
+				break
+			}
+		}
+		if strings.Contains(seq, ":F") && waiterSleptLong(seq) {
+			c += "/long-sleep"
+		}
 		if m["slownext"] != "" {
 			c += "/slownext"
 		}
@@ -723,6 +891,21 @@ func class(in, obs string) string {
 		c += "/fires"
 	}
 	return c
+}
+
+// waiterSleptLong: some token was picked up more than a second before its time
+func waiterSleptLong(seq string) bool {
+	for _, e := range strings.Split(strings.ReplaceAll(seq, "|", ","), ",") {
+		f := strings.Split(e, ":")
+		if len(f) == 4 {
+			tok, _ := strconv.ParseInt(f[0], 10, 64)
+			pick, _ := strconv.ParseInt(f[1], 10, 64)
+			if tok-pick > 1_000_000_000 {
+				return true
+			}
+		}
+	}
+	return false
 }
 
 func main() {
@@ -743,10 +926,10 @@ func main() {
 		Workers: workers,
 		Timeout: 120 * time.Second,
 		Rule: "real-time runs of the real code, every instant taken on the monotonic clock: (a) the engine (engine.New(...).Run) on scripted and PRNG-drawn scenarios - " +
-			"1..16 instances, shared or per-instance once/const/line/step/composite profiles from the real constructors, response-time histories of 1..5 entries from " +
+			"1..16 instances, shared or per-instance once/const/line/step/composite profiles (also sparse ones and ones with gaps) from the real constructors, response-time histories of 1..5 entries from " +
 			"0..4 s (slower than the inter-request interval and than 2 s), discard_overflow on and off, some runs cancelled, instances started at once or one after the other (late starters); (b) the bare coreutil.Waiter on scripted schedules: " +
 			"tokens seconds in the past / up to 0.4 s in the future relative to time.Now(), real sleeps between calls, lateness far from, a few ms and a few hundred µs around " +
-			"the 2 s threshold, cancellation during the timer sleep; (c) the pandora binary with yaml / json / toml / stdin configs (1..3 pools, upper-case key, yaml merge key) that omit / set discard_overflow against a slow in-process HTTP " +
+			"the 2 s threshold, minutes / days / up to 250 years late (also at the values where a narrower integer wraps), timer sleeps of more than a second, hundreds of tokens per case, cancellation during the timer sleep; (c) the pandora binary with yaml / json / toml / stdin configs (1..3 pools with equal or different settings, upper-case key, yaml merge key) that omit / set discard_overflow against a slow in-process HTTP " +
 			"target that counts the requests it receives. Every decision is judged against the measured [pick-up, action] interval. non-trivial = at least one token drawn (proc: the process ran)",
 	})
 }
